@@ -261,6 +261,7 @@ pub struct Model {
     pub wills_fired: Vec<(String, usize)>,
     /// while set, accepted publishes are recorded as optional (`Msg::maybe`)
     pub accept_uncertain: bool,
+    pub strict_resub: bool,
 }
 
 pub fn split_share(filter: &str) -> (Option<String>, String) {
@@ -289,6 +290,7 @@ impl Model {
             serial_counter: 0,
             wills_fired: Vec::new(),
             accept_uncertain: false,
+            strict_resub: false,
         }
     }
 
@@ -424,11 +426,20 @@ impl Model {
                     lo = s.start;
                     hi = s.start;
                 }
+                if c.frontier_overflow {
+                    // attribution states were dropped: anything from the subscription's start
+                    // may be delivered again, anything before now may have been delivered
+                    lo = s.start;
+                    hi = now;
+                }
                 // QoS 0 forwards pushed to the dead connection are gone: anything accepted
                 // before now may or may not be delivered again
                 let lenient = if s.qos == 0 { now } else { hi };
                 let mut s2 = s.clone();
                 s2.retained_due = false;
+                if std::env::var_os("VERIF_TRACE2").is_some() {
+                    eprintln!("close serial={serial} sub {:?} i={i} resume lo={lo} hi={hi} acked={} fwds={} states={} attr0={:?} fwd0={:?}", s.filter, c.acked_fwds, c.fwds.len(), c.frontier.len(), c.frontier[0].attr.iter().take(5).collect::<Vec<_>>(), c.fwds.iter().take(3).collect::<Vec<_>>());
+                }
                 subs.push(s2);
                 resume.push((lo, lenient.max(s.lenient_until)));
             }
@@ -507,11 +518,6 @@ impl Model {
                 e.history.push((idx, None));
             } else {
                 e.history.push((idx, Some(*pub_serial)));
-            }
-        } else if payload.is_empty() {
-            // known region R9: the broker also clears the retained message here
-            if self.retained.contains_key(&topic) {
-                self.retained_uncertain = true;
             }
         }
         let mut stored_props = props.clone();
@@ -819,9 +825,15 @@ impl Model {
             .position(|s| s.filter == filter && s.end.is_none());
         if let Some(i) = existing {
             // repeating a subscription: nothing is replayed; a changed QoS is region R7
+            let strict = self.strict_resub;
             let s = &mut self.conns[serial].subs[i];
             if s.qos != qos {
-                s.qos_uncertain = true;
+                if strict {
+                    // MQTT: the repeated subscription replaces the old one with the new QoS
+                    s.qos = qos;
+                } else {
+                    s.qos_uncertain = true;
+                }
             }
             if sub_id.is_some() {
                 s.sub_id = sub_id;
